@@ -149,7 +149,7 @@ def evaluate_z3_string_value(expr: z3.ExprRef, _) -> Maybe[Z3EvalResult]:
     if not z3.is_string_value(expr):
         return Nothing
     expr: z3.StringVal
-    return Some(((), expr.as_string().replace(r"\u{}", "\x00")))
+    return Some(((), smt_string_val_to_string(expr)))
 
 
 def evaluate_z3_int_value(expr: z3.ExprRef, _) -> Maybe[Z3EvalResult]:
@@ -892,15 +892,19 @@ def escape_non_ascii_smt(smt_text: str) -> str:
 
 def smt_string_val_to_string(smt_val: z3.StringVal) -> str:
     r"""
-    Converts `smt_val` to its string representation. Handles the special case of
-    null-bytes characters in `smt_val`: Those are represented as `\u{}` by `as_string()`
-    and get converted to `\x00`.
+    Converts `smt_val` to its string representation. Unescapes the `\u{...}` escape
+    sequences produced by `as_string()` (null-bytes, e.g., are represented as `\u{}`).
 
     :param smt_val: The `z3.StringVal` to convert to a Python string.
     :return: The Python string representation of `smt_val`.
     """
 
-    return smt_val.as_string().replace(r"\u{}", "\x00")
+    # Z3 escapes all non-printable and non-ASCII characters as `\u{<hex code>}`.
+    return re.sub(
+        r"\\u\{([0-9a-fA-F]*)\}",
+        lambda match: chr(int(match.group(1) or "0", 16)),
+        smt_val.as_string(),
+    )
 
 
 def parent_relationships_in_z3_expr(
